@@ -3,13 +3,13 @@
 use any_vec::any_value::AnyValueWrapper;
 use any_vec::{AnyVec, SatisfyTraits};
 
-use crate::caps::{Consumer, InsertC, PushC, SpliceC, TrX, MX};
+use crate::caps::{Consumer, InsertC, InsertUncheckedC, PushC, PushUncheckedC, SpliceC, TrX, MX};
 use crate::elem::{self, Elem};
 use crate::exec::{guarded, snap, snap_matches, Caught, Out, World};
 use crate::types::*;
 
 pub const LZ_SRCS: u8 = 6;
-pub const LZ_HOWS: u8 = 5;
+pub const LZ_HOWS: u8 = 7;
 
 #[derive(Clone, Copy)]
 struct LzPlan { depth: u8, uses: u8, how: u8, copies: u8 }
@@ -26,6 +26,8 @@ macro_rules! lz_apply {
                 1 => <$Tr>::$feed($h, p.depth, $b, InsertC(0)),
                 2 => { let at = 1 + u as usize; <$Tr>::$feed($h, p.depth, $b, InsertC(at)) }
                 4 => <$Tr>::$feed($h, p.depth, $b, SpliceC(0)),
+                5 => <$Tr>::$feed($h, p.depth, $b, PushUncheckedC),
+                6 => <$Tr>::$feed($h, p.depth, $b, InsertUncheckedC(0)),
                 _ => { let v: Option<$T> = <$Tr>::$down::<$T, _>($h, p.depth); let v = v.expect("lazy clone downcast to the real type failed"); $got.push(v.id()); let _w = elem::WindowOff::new(); drop(v); }
             }
         }
@@ -76,7 +78,7 @@ impl<T: Elem + SatisfyTraits<Tr>, M: MX, Tr: TrX + ?Sized> World<T, M, Tr> {
         if T::SIZE != 0 { for id in &got { if elem::parent_of(*id) != Some(src_id) { out.fail(Class::Vec, "lazy-not-a-clone", format!("downcast of a lazy clone gave id {id} whose parent is {:?}, source is {src_id}", elem::parent_of(*id))); } } }
         // model: destination
         for u in 0..uses {
-            match how { 0 => mb.push(Mv::CloneOf(src_id)), 1 | 4 => mb.insert(0, Mv::CloneOf(src_id)), 2 => mb.insert(1 + u as usize, Mv::CloneOf(src_id)), _ => {} }
+            match how { 0 | 5 => mb.push(Mv::CloneOf(src_id)), 1 | 4 | 6 => mb.insert(0, Mv::CloneOf(src_id)), 2 => mb.insert(1 + u as usize, Mv::CloneOf(src_id)), _ => {} }
         }
         // model: source, then (for handles) the source value itself moved to B's end, proving it stayed usable
         match src {
